@@ -302,6 +302,10 @@ func retrySweep(env *vh.Env, rep *vh.Report, rng *vh.Rng, encs []enc) {
 	var lineCase []int
 	firstOK := make([]int, len(cases)) // 1 ok, 0 fail, -1 n/a : GetDataTable round 1 (StatGeneralPack)
 	for ci, c := range cases {
+		if overBudget() {
+			rep.Count("stage-cut-short:retry")
+			break
+		}
 		first, isTable := retryOne(rep, c)
 		firstOK[ci] = first
 		switch {
@@ -395,7 +399,7 @@ func reuseSweep(env *vh.Env, rep *vh.Report, rng *vh.Rng, encs []enc) {
 	lastOfType := map[string][]byte{} // body of the previous encoding of the same type
 	for _, e := range encs {
 		fresh, body := newReadable(e)
-		if fresh == nil || len(body) < 2 {
+		if fresh == nil || len(body) < 2 || isDead("reuse:"+e.typ) || overBudget() {
 			continue
 		}
 		var want []byte
@@ -430,6 +434,7 @@ func reuseSweep(env *vh.Env, rep *vh.Report, rng *vh.Rng, encs []enc) {
 			rc := replayCase{Mode: "reuse", Kind: e.kind, Typ: e.typ, Hex: vh.Hex(e.b), N: cut}
 			switch {
 			case o.Timeout:
+				markDead("reuse:" + e.typ)
 				rep.Fail("property", "reuse-hangs:"+e.typ, e.typ+": after a failed Read the same object never finishes a valid Read", rc)
 			case !o.OK():
 				rep.Fail("property", "reuse-fails:"+e.typ, fmt.Sprintf("%s: after a failed Read (input cut at %d) the same object rejects the complete valid input: %s", e.typ, cut, vh.Clip(o.Panic, 80)), rc)
